@@ -226,7 +226,8 @@ theorem deadlock_means_lock_held_while_blocked (keep : Bool) (cap : Nat) (s : LS
 a temporary of the `if` condition).  Writer queue of capacity 1, three workers: a schedule ends with worker 1 blocked in
 `Actor::send` on the full queue holding the READ guard and the raw_packer lock, worker 2 holding the READ guard waiting for
 raw_packer, the file writer's index stage waiting for `indexer.write()`, worker 0 unable to enter — nothing enabled, not final.
-(Two workers suffice for a stuck state with one reader inside `send`: `lock_held_across_send_can_deadlock_two`.) -/
+(Two workers suffice for a stuck state with one reader inside `send`: `lock_held_across_send_can_deadlock_two`; a longer writer
+queue does not help: `lock_held_across_send_can_deadlock_cap4`, capacity 4, six workers — both in `Lemmas/LockNet.lean`.) -/
 theorem lock_held_across_send_can_deadlock :
     ∃ acts, let s := LockNet.runActs true 1 (LockNet.init [2, 1, 1]) acts
       final s = false ∧ ∀ a, LockNet.step true 1 s a = none :=
